@@ -5,6 +5,7 @@ import (
 	"errors"
 	"fmt"
 	"net/http"
+	"slices"
 	"time"
 
 	"github.com/thushan/olla/internal/app/middleware"
@@ -395,6 +396,10 @@ func (a *Application) filterEndpointsByProfile(endpoints []*domain.Endpoint, pro
 		}
 	}
 
+	// what stage 2 leaves out stays visible to stage 3: a request that names a model goes where
+	// that model is served, whatever else the request needs
+	platformFiltered := profileFiltered
+
 	// stage 2: capability filtering (vision requests need vision models)
 	if profile != nil && profile.ModelCapabilities != nil && a.modelRegistry != nil {
 		capabilityFiltered := a.filterEndpointsByCapabilities(profileFiltered, profile, logger)
@@ -408,7 +413,7 @@ func (a *Application) filterEndpointsByProfile(endpoints []*domain.Endpoint, pro
 		ctx := context.Background()
 
 		// use new routing strategy method
-		routableEndpoints, decision, err := a.modelRegistry.GetRoutableEndpointsForModel(ctx, profile.ModelName, profileFiltered)
+		routableEndpoints, decision, err := a.modelRegistry.GetRoutableEndpointsForModel(ctx, profile.ModelName, platformFiltered)
 
 		// store routing decision for headers and metrics
 		if decision != nil {
@@ -439,6 +444,19 @@ func (a *Application) filterEndpointsByProfile(endpoints []*domain.Endpoint, pro
 			"action", decision.Action,
 			"routable", len(routableEndpoints),
 			"compatible", len(profileFiltered))
+
+		// prefer the capable ones among the endpoints the model can be routed to
+		if len(profileFiltered) != len(platformFiltered) {
+			capable := make([]*domain.Endpoint, 0, len(routableEndpoints))
+			for _, endpoint := range routableEndpoints {
+				if slices.Contains(profileFiltered, endpoint) {
+					capable = append(capable, endpoint)
+				}
+			}
+			if len(capable) > 0 {
+				return capable
+			}
+		}
 
 		return routableEndpoints
 	}
